@@ -95,6 +95,12 @@ BASES = {
     ],
 }
 
+# the type code is whatever the class under verification declares (so that a changed MESSAGE_TYPE is exercised, and
+# judged against the protocol's code table by the Spec)
+for _c, _bl in BASES.items():
+    for _b in _bl:
+        _b[0] = getattr(message, _c).MESSAGE_TYPE
+
 # a value of every kind / boundary
 KINDS = [
     None, True, False, -1, 0, 1, 2, 2 ** 53, 2 ** 53 + 1, 2 ** 63, -2 ** 63, 1.0, 0.0, 1.5, -0.0,
@@ -143,8 +149,37 @@ def dict_positions(base):
     return [i for i, v in enumerate(base) if isinstance(v, dict) and i > 0]
 
 
-def gen_struct(tier, rng):
-    """yield (label, raw)"""
+class Sel:
+    """round-robin case selector: a case is built only by the worker it belongs to"""
+
+    def __init__(self, part, parts):
+        self.part, self.parts, self.i = part, parts, -1
+
+    def __call__(self):
+        self.i += 1
+        return self.i % self.parts == self.part
+
+
+def setpos(b, i, v):
+    m = clone(b)
+    m[i] = clone(v)
+    return m
+
+
+def setopt(b, di, k, v):
+    m = clone(b)
+    m[di][k] = clone(v)
+    return m
+
+
+def delopt(b, di, k):
+    m = clone(b)
+    del m[di][k]
+    return m
+
+
+def gen_struct(tier, rng, sel):
+    """yield (label, raw) for the cases selected by `sel`"""
     for cname, bases in BASES.items():
         keys = set(EXTRA_KEYS)
         for b in bases:
@@ -153,86 +188,101 @@ def gen_struct(tier, rng):
                     continue
                 keys |= set(b[i].keys())
         for bi, b in enumerate(bases):
-            yield (f"{cname}:base{bi}", clone(b))
+            if sel():
+                yield (f"{cname}:base{bi}", clone(b))
             # every position replaced by every kind
             for i in range(1, len(b)):
                 for v in KINDS:
-                    m = clone(b)
-                    m[i] = clone(v)
-                    yield (f"{cname}:pos{i}", m)
+                    if sel():
+                        yield (f"{cname}:pos{i}", setpos(b, i, v))
             # every option replaced by / set to every kind (in the first dict position = options/details)
             dps = dict_positions(b)
             if dps and cname not in ("Challenge", "Authenticate"):
                 di = dps[0]
                 for k in sorted(keys):
                     for v in KINDS:
-                        m = clone(b)
-                        m[di][k] = clone(v)
-                        yield (f"{cname}:opt:{k}", m)
+                        if sel():
+                            yield (f"{cname}:opt:{k}", setopt(b, di, k, v))
                 if cname in ("Hello", "Welcome"):
                     for rv in ROLE_VARIANTS:
-                        m = clone(b)
-                        m[di]["roles"] = clone(rv)
-                        yield (f"{cname}:roles", m)
-                    m = clone(b)
-                    del m[di]["roles"]
-                    yield (f"{cname}:noroles", m)
+                        if sel():
+                            yield (f"{cname}:roles", setopt(b, di, "roles", rv))
+                    if sel():
+                        yield (f"{cname}:noroles", delopt(b, di, "roles"))
                 # drop each option
                 for k in list(b[di].keys()):
-                    m = clone(b)
-                    del m[di][k]
-                    yield (f"{cname}:drop:{k}", m)
+                    if sel():
+                        yield (f"{cname}:drop:{k}", delopt(b, di, k))
             # wrong element counts
             for n in range(0, len(b) + 3):
-                m = clone(b)[:n] + [None, 1, {}, [], "a.b"][: max(0, n - len(b))]
-                yield (f"{cname}:len{n}", m)
+                if sel():
+                    yield (f"{cname}:len{n}", clone(b)[:n] + [None, 1, {}, [], "a.b"][: max(0, n - len(b))])
                 if n > len(b):
                     for filler in ([], {}, b"x", "s", [1]):
-                        yield (f"{cname}:len{n}", clone(b) + [clone(filler)] * (n - len(b)))
+                        if sel():
+                            yield (f"{cname}:len{n}", clone(b) + [clone(filler) for _ in range(n - len(b))])
             # tail variants (args / kwargs / payload shapes) appended to the shortest form
             if cname in ("Error", "Publish", "Event", "Call", "Result", "Invocation", "Yield") and bi == 0:
                 for a in KINDS:
-                    yield (f"{cname}:tail1", clone(b) + [clone(a)])
+                    if sel():
+                        yield (f"{cname}:tail1", clone(b) + [clone(a)])
                 for a, kw in itertools.product([None, [], [1], "s", b"x", {}, 1], [None, {}, {"k": 1}, {1: 2}, "s", b"x", [], 1]):
-                    yield (f"{cname}:tail2", clone(b) + [a, kw])
+                    if sel():
+                        yield (f"{cname}:tail2", clone(b) + [clone(a), clone(kw)])
                 # enc_* subsets with a payload
-                for sub in itertools.product([None, "cryptobox", "", 0, "bogus", "x_a", False, [], 5], repeat=1):
-                    pass
                 encv = {"enc_algo": ["cryptobox", "", 0, "bogus", "x_ab", None, False, 5, "x_"],
                         "enc_key": ["k", "", 0, None, 5, b"k", []],
                         "enc_serializer": ["json", "", 0, "bogus", "x_ab", None, 5, "flatbuffers"]}
+                di = dict_positions(b)[0]
                 for present in itertools.product([0, 1], repeat=3):
                     ks = [k for k, p in zip(encv, present) if p]
                     for vals in itertools.product(*[encv[k] for k in ks]):
-                        m = clone(b)
-                        di = dict_positions(m)[0]
-                        for k, v in zip(ks, vals):
-                            m[di][k] = v
+                        def mk():
+                            m = clone(b)
+                            for k, v in zip(ks, vals):
+                                m[di][k] = clone(v)
+                            return m
                         for pl in (b"zz", b"", "str"):
-                            yield (f"{cname}:enc", m + [pl])
-                        yield (f"{cname}:enc-nopayload", clone(m) + [[1]])
-        # type codes
+                            if sel():
+                                yield (f"{cname}:enc", mk() + [pl])
+                        if sel():
+                            yield (f"{cname}:enc-nopayload", mk() + [[1]])
+    # type codes
     for tc in TYPE_CODES:
-        yield ("typecode", [tc, 1, {}, "a.b"])
-        yield ("typecode", [tc])
+        if sel():
+            yield ("typecode", [tc, 1, {}, "a.b"])
+        if sel():
+            yield ("typecode", [tc])
     for raw in ([], None, {}, "x", 1, b"x", [[48, 1, {}, "a.b"]], {"0": 48}, (48, 1, {}, "a.b")):
-        yield ("envelope", raw)
-    # pairs of mutations (error precedence)
-    npairs = 4000 if tier == "quick" else 60000
+        if sel():
+            yield ("envelope", raw)
+    # pairs of mutations (error precedence); the random stream is consumed identically by every worker
+    npairs = 2500 if tier == "quick" else 400000
     names = list(BASES)
     for _ in range(npairs):
+        mine = sel()
         cname = rng.choice(names)
-        b = clone(rng.choice(BASES[cname]))
-        for _k in range(rng.choice([2, 2, 3])):
+        b0 = rng.choice(BASES[cname])
+        b = clone(b0) if mine else None
+        nmut = rng.choice([2, 2, 3])
+        for _k in range(nmut):
+            # draw the same random numbers whether or not the case is ours
+            r1, r2, r3 = rng.random(), rng.random(), rng.random()
+            kind = rng.randrange(len(KINDS))
+            if not mine:
+                continue
             dps = dict_positions(b)
-            if dps and rng.random() < 0.6 and isinstance(b[dps[0]], dict):
-                key = rng.choice(sorted(set(k for k in b[dps[0]].keys() if isinstance(k, str)) | set(EXTRA_KEYS)))
-                b[dps[0]][key] = clone(rng.choice(KINDS))
+            if dps and r1 < 0.6 and isinstance(b[dps[0]], dict):
+                ks = sorted(set(k for k in b[dps[0]].keys() if isinstance(k, str)) | set(EXTRA_KEYS))
+                b[dps[0]][ks[int(r2 * len(ks))]] = clone(KINDS[kind])
             elif len(b) > 1:
-                b[rng.randrange(1, len(b))] = clone(rng.choice(KINDS))
-        if rng.random() < 0.2:
-            b = b + [clone(rng.choice(KINDS))]
-        yield (f"{cname}:pair", b)
+                b[1 + int(r3 * (len(b) - 1))] = clone(KINDS[kind])
+        r4 = rng.random()
+        kind = rng.randrange(len(KINDS))
+        if mine:
+            if r4 < 0.2:
+                b = b + [clone(KINDS[kind])]
+            yield (f"{cname}:pair", b)
 
 
 def run_struct(job):
@@ -241,9 +291,7 @@ def run_struct(job):
     ser = wc.RawSerializer()
     out = []
     seen = set()
-    for idx, (label, raw) in enumerate(gen_struct(job["tier"], rng)):
-        if idx % parts != part:
-            continue
+    for label, raw in gen_struct(job["tier"], rng, Sel(part, parts)):
         tok = wval.enc(raw)
         if tok in seen or wval.has_surrogate(raw):
             continue
